@@ -2,6 +2,8 @@ package props
 
 import (
 	"crypto/ed25519"
+	"crypto/sha256"
+	"crypto/sha512"
 	"fmt"
 	"math/big"
 	"sort"
@@ -109,10 +111,30 @@ func VerifiedSigners(tx *action.SignedTx, chainID string) []keys.Address {
 func verifySig(pk keys.PublicKey, msg, sig []byte) keys.Address {
 	switch pk.KeyType {
 	case keys.ED25519:
-		if len(pk.Data) != ed25519.PublicKeySize || len(sig) != ed25519.SignatureSize {
+		if len(pk.Data) != ed25519.PublicKeySize {
 			return nil
 		}
-		if !ed25519.Verify(ed25519.PublicKey(pk.Data), msg, sig) {
+		if len(sig) == 6+ed25519.SignatureSize {
+			// hardware-wallet format: exact 6-byte tag naming the hash, then the signature over the hashed message
+			switch string(sig[:6]) {
+			case "SHA224":
+				x := sha256.Sum224(msg)
+				msg = x[:]
+			case "SHA256":
+				x := sha256.Sum256(msg)
+				msg = x[:]
+			case "SHA384":
+				x := sha512.Sum384(msg)
+				msg = x[:]
+			case "SHA512":
+				x := sha512.Sum512(msg)
+				msg = x[:]
+			default:
+				return nil
+			}
+			sig = sig[6:]
+		}
+		if len(sig) != ed25519.SignatureSize || !ed25519.Verify(ed25519.PublicKey(pk.Data), msg, sig) {
 			return nil
 		}
 		var k tmed.PubKeyEd25519
